@@ -321,7 +321,7 @@ impl OptSpec {
     }
 }
 
-pub const PREFIXES: &[&str] = &["@", "", "attr_", "$", "@@", "a", "_", "#", "é", "@\"", " "];
+pub const PREFIXES: &[&str] = &["@", "", "attr_", "$", "@@", "a", "_", "#", "é", "@\"", " ", "ns_", "x_", "xsi_", "xml_", "p_", "a_", "r_", "item_"];
 pub const TEXT_IDS: &[&str] = &["$text", "$value", "text", "#text", "", "body", "$", "t e x t", "\"q\"", "名"];
 pub const DERIVES: &[&str] = &[
     "Serialize, Deserialize",
